@@ -143,6 +143,7 @@ func GenC04(r *h.Rng, tier string, emit func(string)) {
 			st.Inc("psim")
 		}
 	}
+	genXfer(r, nprog/8, emit, st)
 	h.EmitStats(emit, st)
 }
 
